@@ -40,23 +40,34 @@ def date_ts(attrs):
     return email.utils.mktime_tz(e) if e else None
 
 
-def rfc_expired(attrs):
-    """RFC 6265 §5.2.1/§5.2.2/§4.1.2.2: Max-Age (a plain integer) has precedence over Expires; True / False, or None
-    where the RFC grammar and Python's int() disagree about the Max-Age value (the oracle then abstains)"""
-    ma = [v for k, v in attrs if k.lower() == "max-age"]
-    if ma:
-        v = ma[-1]
-        if v is not None and PLAIN_INT.match(v):
-            return int(v) <= 0
-        if v is not None:
-            try:
-                int(v); return None          # "+0", "1_0": int() takes it, the RFC grammar does not
-            except ValueError:
-                pass
+def _expires_verdict(attrs):
     if any(k.lower() == "expires" for k, _ in attrs):
         ts = date_ts(attrs)
         if ts is not None: return ts <= NOW
     return False
+
+
+def rfc_expired(attrs):
+    """RFC 6265 §5.2.1/§5.2.2/§4.1.2.2: Max-Age (a plain integer) has precedence over Expires.  True / False.
+    None (the oracle abstains) ONLY when the last Max-Age value is one the RFC grammar rejects but Python's int() accepts
+    ('+0', '1_0', '+5') AND the two readings — ignore the attribute (RFC) vs. take int()'s value — give different verdicts."""
+    ma = [v for k, v in attrs if k.lower() == "max-age"]
+    if ma and ma[-1] is not None:
+        v = ma[-1]
+        if PLAIN_INT.match(v):
+            return int(v) <= 0
+        try:
+            as_int = int(v) <= 0
+        except ValueError:
+            return _expires_verdict(attrs)       # both readings ignore it
+        rfc = _expires_verdict(attrs)
+        return rfc if rfc == as_int else None
+    return _expires_verdict(attrs)
+
+
+def plain_hostname(h):
+    """syntactic: a non-empty name without leading/trailing dot that does not end in .<digits>"""
+    return bool(h) and not h.startswith(".") and not h.endswith(".") and not re.search(r"\.[0-9]+\Z", h)
 
 
 class FrozenTime:
@@ -370,11 +381,21 @@ class Check(PropertyCheck):
             ev2 = case["evs"][i2]
             if ev2["t"] != "resp": continue
             for j2, c2 in enumerate(ev2["cookies"]):
-                # (demanded only when the expiring response comes from the host whose cookie was accepted before: the
-                #  statement does not say which other hosts may expire it)
-                if (i2, j2) > (i, j) and rfc_expired(c2["attrs"]) is True and c2["name"] == name and self._key(ev2, c2) == (dom, port, path) \
-                        and ev2["host"].lower() == ev["host"].lower():
+                if not ((i2, j2) > (i, j) and rfc_expired(c2["attrs"]) is True and c2["name"] == name
+                        and self._key(ev2, c2) == (dom, port, path)):
+                    continue
+                # RFC 6265 §5.3: a response whose host domain-matches the cookie's domain replaces / expires it.
+                # A response from a host that does not domain-match is foreign and must be ignored (not demanded, by the
+                # property's own second sentence).
+                if not dm6265(ev2["host"], dom): continue
+                same_host = ev2["host"].lower() == ev["host"].lower()
+                dotted = dom.startswith(".") and plain_hostname(dom[1:]) and plain_hostname(ev2["host"])
+                if same_host or dotted:
                     fails.append(f"{where}: cookie {name}={value} was expired by event {i2} and is still there")
+                else:
+                    # the code treats a Domain without leading dot (or with odd syntax) as exact-host: recorded as F-C54g
+                    fails.append(f"{where}: cookie {name}={value} was expired by event {i2} cookie {j2} sent by another "
+                                 f"host {ev2['host']!r} for domain {dom!r} [cross-host-exact-domain] and is still there")
         return fails, (dom, port, path)
 
     def oracle(self, case, obs):
@@ -386,7 +407,9 @@ class Check(PropertyCheck):
             return [f"path_match{tuple(case['pm'])} is true, RFC 6265 §5.1.4 says no"] if obs["pm"] and not pm6265(*case["pm"]) else []
         if "int" in case: return []
         sets = self._sets(case)
-        fails = []
+        fails = [f"event {i}: the {ev['t']} hook raised {r['raised']}" for i, (ev, r) in enumerate(zip(case["evs"], obs["evs"]))
+                 if "raised" in r]
+        if fails: return fails[:3]
         for i, (ev, r) in enumerate(zip(case["evs"], obs["evs"])):
             if ev["t"] != "req" or r["cookie"] is None: continue
             for pair in r["cookie"].split("; "):
@@ -413,6 +436,78 @@ class Check(PropertyCheck):
                     if key is not None and key != (dom, port, path):
                         fails.append(f"jar entry {(dom, port, path)} holds {name}={value} which was set for {key}")
         return fails[:3]
+
+    _G = re.compile(r"cookie (\S+)=(\S+) was expired by event (\d+) cookie (\d+) sent by another host .* \[cross-host-exact-domain\] and is still there")
+
+    def known(self, case, obs, failure):
+        """F-C54g: an expired Set-Cookie from ANOTHER host that RFC-domain-matches the stored domain is ignored because the
+        stored domain has no leading dot (or is not a plain dotted host name): the code treats such a domain as exact-host.
+        Recognised from the facts of the case, not from the wording alone."""
+        m = self._G.search(failure) if "evs" in case else None
+        if not m: return None
+        name, value, i2, j2 = m.group(1), m.group(2), int(m.group(3)), int(m.group(4))
+        sets = self._sets(case)
+        if value not in sets: return None
+        i, j, ev, c = sets[value]
+        try:
+            ev2 = case["evs"][i2]; c2 = ev2["cookies"][j2]
+        except (IndexError, KeyError):
+            return None
+        dom, port, path = self._key(ev, c)
+        ok = (ev2["t"] == "resp" and (i2, j2) > (i, j) and c["name"] == name == c2["name"]
+              and rfc_expired(c2["attrs"]) is True and self._key(ev2, c2) == (dom, port, path)
+              and dm6265(ev2["host"], dom) and ev2["host"].lower() != ev["host"].lower()
+              and not (dom.startswith(".") and plain_hostname(dom[1:]) and plain_hostname(ev2["host"])))
+        return "F-C54g" if ok else None
+
+    def setup(self, tier):
+        self.known_selftest()
+
+    def known_selftest(self):
+        """doctored observations just inside / just outside every lenient branch of the oracle (independent of the tree)"""
+        def resp(host, name, value, attrs): return {"t": "resp", "host": host, "port": 80, "cookies": [{"name": name, "value": value, "attrs": attrs}]}
+        def obs(case, jar): return {"evs": [{"njar": 0, "expired": []} for _ in case["evs"]], "jar": jar}
+        def run(case, jar): return self.oracle(case, obs(case, jar))
+        E = "example.com"
+        kept = lambda dom, n="sid", v="v1": [[dom, 80, "/", [[n, v]]]]
+        # (a) Max-Age abstention: only where int() and the RFC grammar disagree AND the verdicts differ
+        assert rfc_expired([["Max-Age", "+0"]]) is None and rfc_expired([["Max-Age", "+5"], ["Expires", PAST]]) is None
+        assert rfc_expired([["Max-Age", "1_0"]]) is False and rfc_expired([["Max-Age", "+5"], ["Expires", FUTURE]]) is False
+        assert rfc_expired([["Max-Age", "+0"], ["Expires", PAST]]) is True and rfc_expired([["Max-Age", "-0"]]) is True
+        assert rfc_expired([["Max-Age", "abc"], ["Expires", PAST]]) is True and rfc_expired([["Max-Age", None], ["Expires", PAST]]) is True
+        assert rfc_expired([["Max-Age", "0"], ["Expires", FUTURE]]) is True and rfc_expired([["Max-Age", "5"], ["Expires", PAST]]) is False
+        c = {"evs": [resp(E, "sid", "v1", [["Max-Age", "+0"]])]}
+        assert run(c, kept(E)) == [] and run(c, []) == [], "abstention witness"
+        for attrs in ([["Max-Age", "-0"]], [["Max-Age", "+0"], ["Expires", PAST]], [["Max-Age", "0"], ["Expires", FUTURE]]):
+            c = {"evs": [resp(E, "sid", "v1", attrs)]}
+            assert any("already expired" in f for f in run(c, kept(E))), ("near miss: expired cookie kept must be rejected", attrs)
+        c = {"evs": [resp(E, "sid", "v1", [["Max-Age", "1_0"]]), resp(E, "sid", "v2", [["Max-Age", "0"]])]}
+        assert any("is still there" in f for f in run(c, kept(E))), "near miss: '1_0' is unexpired under both readings, its later expiry is demanded"
+        # (b) who may expire a cookie
+        c = {"evs": [resp("a." + E, "sid", "v1", [["Domain", "." + E]]), resp("sub." + E, "sid", "v2", [["Domain", "." + E], ["Max-Age", "0"]])]}
+        f = run(c, kept("." + E))
+        assert f and "is still there" in f[0] and self.known(c, None, f[0]) is None, "cross-host expiry of a dotted domain is demanded"
+        c = {"evs": [resp(E, "sid", "v1", [["Domain", E]]), resp("sub." + E, "sid", "v2", [["Domain", E], ["Max-Age", "0"]])]}
+        f = run(c, kept(E))
+        assert f and self.known(c, None, f[0]) == "F-C54g", "F-C54g witness"
+        c = {"evs": [resp(E, "sid", "v1", [["Domain", E]]), resp(E, "sid", "v2", [["Domain", E], ["Max-Age", "0"]])]}
+        f = run(c, kept(E))
+        assert f and self.known(c, None, f[0]) is None, "near miss: same host, dot-less domain"
+        assert self.known(c, None, f[0] + " [cross-host-exact-domain]") is None, "wording alone does not excuse"
+        c = {"evs": [resp(E, "sid", "v1", [["Domain", E]]), resp("evil.org", "sid", "v2", [["Domain", E], ["Max-Age", "0"]])]}
+        assert run(c, kept(E)) == [], "a foreign response must not expire the cookie"
+        c = {"evs": [resp(E, "sid", "v1", [["Domain", E]]), resp("sub." + E, "sid", "v2", [["Domain", E], ["Max-Age", "0"]]),
+                     {"t": "req", "m": "GET", "host": "x" + E, "port": 80, "path": "/"}]}
+        o = obs(c, kept(E)); o["evs"][2] = {"cookie": "sid=v1"}
+        f = self.oracle(c, o)
+        assert any("attached to host" in x and self.known(c, o, x) is None for x in f), "same input class, other clause: not excused"
+        # (c) a raising hook
+        c = {"evs": [resp(E, "sid", "v1", [])]}
+        o = obs(c, kept(E)); o["evs"][0]["raised"] = "TypeError"
+        assert any("raised" in f for f in self.oracle(c, o)), "raising hook must be rejected"
+        # (d) pair cases: only 'impl says yes, RFC says no' is a failure (the property is an only-if)
+        assert self.oracle({"dm": ["x." + E + ".evil.org", "." + E]}, {"dm": True}) and not self.oracle({"dm": ["sub." + E, E]}, {"dm": False})
+        assert self.oracle({"pm": ["/foobar", "/foo"]}, {"pm": True}) and not self.oracle({"pm": ["/foo/bar", "/foo"]}, {"pm": False})
 
     # ---- the model ---------------------------------------------------------------------------
     @staticmethod
